@@ -76,6 +76,7 @@ def units(tier):
     L = 5 if tier == 'quick' else 6
     for sh in range(8):
         out.append({'fam': 'plain', 'tier': tier, 'L': L, 'shard': [sh, 8]})
+    out.append({'fam': 'probe', 'tier': tier})
     for parent in NEST_PARENTS:
         for join in JOINS:
             out.append({'fam': 'nested', 'parent': parent, 'join': join, 'L': 4 if tier == 'quick' else 5})
@@ -89,6 +90,12 @@ def cases(unit):
         for i, seq in enumerate(spaces.wf_sequences(unit.get('keys', [0, 1]), [1, 2], unit['depth'])):
             if i % n == sh:
                 yield {'fam': 'raw', 'tier': unit['tier'], 'events': [list(e) for e in seq]}
+    elif fam == 'probe':
+        for join in JOINS:
+            for n in (255, 256, 257, 512):
+                yield {'fam': 'longkey', 'join': join, 'n': n}
+            yield {'fam': 'reuse_op', 'join': join}
+            yield {'fam': 'manykeys', 'join': join, 'keys': 200 if unit['tier'] == 'quick' else 16500}
     elif fam == 'plain':
         sh, n = unit['shard']
         for i, seq in enumerate(spaces.sequences([0, 1, 2], unit['L'])):
@@ -125,8 +132,80 @@ class Join(object):
         return [tuple(self.val)]
 
 
+def run_probe(case, acc):
+    import rx
+    import rxsci as rs
+    from ..bytelevel import RawSink
+    from ..drivers import Sink
+    fam, join = case['fam'], case['join']
+    out = []
+    if fam == 'longkey':
+        # one branch produces n values for a key while the other produces one at completion (n around 256)
+        n = case['n']
+        for spec in ([['tee_map', join, [['identity']], [['count', True]]]], [['tee_map', join, [['count', True]], [['identity']]]],
+                     [['group_by', 'mod2', [['tee_map', join, [['identity']], [['last']], [['filter', 'even']]]]]]):
+            items = list(range(n))
+            sink, ctx, store = harness.run_api(spec, items)
+            exp = harness.model_all(spec, items)
+            acc.evals += 1
+            acc.events += n
+            acc.traces += 1
+            if sink.error is not None or sink.items != exp:
+                out.append(viol('long-key', join, 'join-' + str(harness.diff_kind(exp, sink.items)), {'spec': spec, 'n': n, 'expected_tail': exp[-3:],
+                                                                                                   'observed_tail': sink.items[-3:], 'error': repr(sink.error)}))
+                break
+        return out
+    if fam == 'reuse_op':
+        # ONE tee_map operator object applied to two different plain sources, one after the other
+        op = rs.ops.tee_map(rs.ops.filter(lambda i: i > 5), rs.ops.count(), join=join)
+        fresh = lambda: rs.ops.tee_map(rs.ops.filter(lambda i: i > 5), rs.ops.count(), join=join)
+        for a, b in (([1, 2, 3], [7, 8]), ([7], [1, 9]), ([], [6, 1, 7])):
+            s1, s2, ref = Sink(), Sink(), Sink()
+            s1.subscribe_to(rx.from_(a).pipe(op))
+            s2.subscribe_to(rx.from_(b).pipe(op))
+            ref.subscribe_to(rx.from_(b).pipe(fresh()))
+            acc.evals += 3
+            acc.traces += 1
+            if s2.items != ref.items or (s2.error is None) != (ref.error is None):
+                out.append(viol('plain-operator-object-applied-twice', join, 'second-use-differs-from-a-fresh-operator',
+                                {'first_source': a, 'second_source': b, 'fresh': ref.items, 'second': s2.items}))
+                break
+        return out
+    nk = case['keys']
+    # many live keys; branches with different rates (filter on the second item only)
+    items = [(k, p) for p in range(3) for k in range(nk)]
+    sink = RawSink()
+    sink.subscribe_to(rx.from_(items).pipe(rs.state.with_memory_store([rs.ops.group_by(lambda t: t[0], [
+        rs.ops.tee_map(rs.ops.map(lambda t: t[1]), rx.pipe(rs.ops.filter(lambda t: t[1] == 1), rs.ops.map(lambda t: t[0])), rs.ops.count(reduce=True), join=join)])])))
+    acc.evals += 1
+    acc.events += len(items)
+    acc.traces += 1
+    from collections import Counter
+    got = Counter(map(repr, sink.items))
+    # per key k: model
+    def per_key(k):
+        m = opspecs.M.TeeMap(join, [lambda: opspecs.M.Map(lambda t: t[1]), lambda: opspecs.M.Pipe([opspecs.M.Filter(lambda t: t[1] == 1), opspecs.M.Map(lambda t: t[0])]),
+                                    lambda: opspecs.M.Scan(lambda a, x: a + 1, lambda: 0, True, None)])
+        o = []
+        for p in range(3):
+            o.extend(m.item((k, p)))
+        o.extend(m.end())
+        return o
+    want = Counter()
+    for k in range(nk):
+        for y in per_key(k):
+            want[repr(y)] += 1
+    if sink.error is not None or got != want:
+        diff = list((want - got).items())[:3], list((got - want).items())[:3]
+        out.append(viol('many-keys', join, 'join-differs', {'keys': nk, 'missing/extra': diff, 'error': repr(sink.error)}))
+    acc.count('many_live_keys')
+    return out
+
+
 def run_case(case, acc):
     fam = case['fam']
+    if fam in ('longkey', 'reuse_op', 'manykeys'):
+        return run_probe(case, acc)
     if fam == 'nested':
         return run_nested(case, acc)
     out = []
